@@ -140,7 +140,10 @@ class Check(PropertyCheck):
                   "refilter_is_stable_sort_of_store and set_order_is_stable_sort_of_view (exact equalities right after those "
                   "operations), view_is_sort_when_keys_distinct (exact always when keys are pairwise different); the four key "
                   "generators as Lean code genKey with real_keys_total_preorder (Python's <= on their values is a total preorder "
-                  "per order) and view_sorted_by_generated_keys. Tie: after every operation list(view), focus, store order, "
+                  "per order), rank_is_order_embedding (the rank among the keys of a history maps them order-preservingly to naturals) "
+                  "and view_sorted_by_real_keys (for every history given by the flows' data, fed to the model through that rank, "
+                  "the listed flows are in the order of their generated keys — no hypothesis; view_sorted_by_generated_keys is its "
+                  "conditional form). Tie: after every operation list(view), focus, store order, "
                   "settings ids and the exact signal sequence are compared; genKey and SortKey.le are compared with the real "
                   "generate() values and Python's <= on flows of every type (incl. OPCODE(n), non-ASCII names, missing content).")
     level_note = ("ORACLE LENIENCIES (all; each tried by known_selftest on hand-written observations at every run): (a) Skip() "
@@ -157,9 +160,9 @@ class Check(PropertyCheck):
                   "is the order of (re-)insertion and depends on the history (proved stable only at re-filter / re-order). "
                   "trusted: sortedcontainers.SortedListWithKey behaves as a sorted list with bisect_right insertion and key-based "
                   "lookup (tied differentially, not proved); flowfilter verdicts are evaluated by the real flowfilter and fed to "
-                  "the model as data; the state machine sorts naturals that the harness derives order-preservingly from the real "
-                  "keys (view_sorted_by_generated_keys takes that as its hypothesis; the keys themselves and their order are "
-                  "modelled and tied); request.url, format_address and dns size enter genKey as data; list arguments are modelled "
+                  "the model as data; the state machine sorts naturals; that they are an order-preserving image of the generated "
+                  "keys is proved for the rank map (view_sorted_by_real_keys) — the harness uses rank tables over its fixed "
+                  "pools, the same construction; the keys themselves and their order are modelled and tied; request.url, format_address and dns size enter genKey as data; list arguments are modelled "
                   "as the sequence of single-flow operations; duplicate/create/load_file/resolve are not modelled.")
     technique = "Lean 4 proof (invariant induction over operation sequences) + differential model-vs-addon correspondence"
     rule = ("a pool of 2-5 flows of types http/tcp/udp/dns; sequences of <=25 operations; every add/update/mutate carries fresh "
